@@ -286,7 +286,7 @@ def tie(ctx):
     for v in violations:
         first.setdefault(v["signature"] + str(v["input"]["db"].get("name")), v)
     return {"families": fam, "violations": list(first.values())[:5], "evaluations": stats["variants"], "distinct_nontrivial": len(distinct),
-            "rule": "every raw variant entry of shipped databases (quick: 7 genes x 2 builds; thorough: all) and of generated databases (random sequence, SNP/MNP/ins/del/delins, both strands, alignment strings with I/D); distinct by (gene, build, position, change)",
+            "rule": "every raw variant entry of shipped databases (quick: 7 genes x 2 builds; thorough: all) and of generated databases (random sequence, SNP/MNP/ins/del/delins, both strands, alignment strings with I/D, multi-base variants placed at and beside the alignment gaps); distinct by (gene, build, position, change)",
             "samples": samples, "stats": dict(stats)}
 
 
